@@ -321,6 +321,20 @@ fn cfg() -> Config {
     Config::default().with_generate_ids(false).with_debug(false)
 }
 
+/// the configuration with reverse indices switched off: bit 0 textrelationmap, 1 resource_annotation_map,
+/// 2 dataset_annotation_map, 3 annotation_annotation_map, 4 key_annotation_metamap, 5 data_annotation_metamap.
+/// The switches only disable reverse lookups: what an annotation selects, what protect_text
+/// records and what validate_text answers do not depend on them.
+fn cfg_with(flags: i64) -> Config {
+    cfg()
+        .with_textrelationmap(flags & 1 == 0)
+        .with_resource_annotation_map(flags & 2 == 0)
+        .with_dataset_annotation_map(flags & 4 == 0)
+        .with_annotation_annotation_map(flags & 8 == 0)
+        .with_key_annotation_metamap(flags & 16 == 0)
+        .with_data_annotation_metamap(flags & 32 == 0)
+}
+
 /// the STAM JSON of the store with the text of the n-th serialised resource replaced
 fn replace_text(json: &str, nth: usize, newtext: &str) -> Option<String> {
     let marker = "\"@type\": \"TextResource\"";
@@ -459,9 +473,10 @@ impl Ctx {
         Ctx { dir, counter: AtomicUsize::new(0) }
     }
 
-    /// request: (ops mode edits)
+    /// request: (ops mode edits switches)
     pub fn exec(&self, req: &Sx) -> (Sx, Vec<Sx>, bool) {
-        let mut store = AnnotationStore::new(cfg().with_workdir(self.dir.clone()));
+        let flags = req.nth(3).int();
+        let mut store = AnnotationStore::new(cfg_with(flags).with_workdir(self.dir.clone()));
         let mut outs: Vec<Sx> = Vec::new();
         let mut table: BTreeMap<String, String> = BTreeMap::new();
         outs.push(a(1)); // the table check: filled in below
@@ -481,10 +496,10 @@ impl Ctx {
         let n = self.counter.fetch_add(1, Ordering::SeqCst);
         let fname = format!("case{}.store.stam.cbor", n % 4);
         let path = format!("{}/{}", self.dir, fname);
-        let wcfg = cfg().with_workdir(self.dir.clone());
+        let wcfg = cfg_with(flags).with_workdir(self.dir.clone());
         let json_rt = |store: &AnnotationStore| -> (Option<String>, Option<AnnotationStore>) {
             let json = guard(|| store.to_json_string(&Config::default())).and_then(|r| r.ok());
-            let back = json.as_ref().and_then(|js| guard(|| AnnotationStore::from_str(js.as_str(), cfg())).and_then(|r| r.ok()));
+            let back = json.as_ref().and_then(|js| guard(|| AnnotationStore::from_str(js.as_str(), cfg_with(flags))).and_then(|r| r.ok()));
             (json, back)
         };
         let cbor_rt = |store: &mut AnnotationStore| -> Option<AnnotationStore> {
@@ -505,11 +520,14 @@ impl Ctx {
         let after = verdicts(&store, false);
         let nontrivial = after.nth(1).nth(0).int() > 0;
         outs.push(after);
-        for h in 0..store.annotations_len() {
-            outs.push(storegen::obs_annotation(&store, h));
-        }
-        for h in 0..store.datasets_len() {
-            outs.push(obs_dataset(&store, h));
+        if flags == 0 {
+            // the records contain reverse lookups: only with all indices on
+            for h in 0..store.annotations_len() {
+                outs.push(storegen::obs_annotation(&store, h));
+            }
+            for h in 0..store.datasets_len() {
+                outs.push(obs_dataset(&store, h));
+            }
         }
         let (json, jback) = json_rt(&store);
         outs.push(match (&jback, base_json) {
@@ -532,7 +550,7 @@ impl Ctx {
                     Some(x) => x,
                     None => continue,
                 };
-                let loaded = guard(|| AnnotationStore::from_str(js2.as_str(), cfg()));
+                let loaded = guard(|| AnnotationStore::from_str(js2.as_str(), cfg_with(flags)));
                 match loaded {
                     None => {
                         if e.same_len {
@@ -575,7 +593,7 @@ impl Ctx {
             }
         }
         outs[0] = a(if inj { 1 } else { 0 });
-        let input = l(vec![req.nth(0).clone(), req.nth(1).clone(), l(tb), l(edits_in), l(vec![a(base_json as i64), a(base_cbor as i64)])]);
+        let input = l(vec![req.nth(0).clone(), req.nth(1).clone(), l(tb), l(edits_in), l(vec![a(base_json as i64), a(base_cbor as i64)]), a(flags)]);
         (input, outs, nontrivial)
     }
 }
@@ -646,8 +664,11 @@ fn vdata(key: i64, val: &str) -> Sx {
     l(vec![r(VSET_TOK), a(-1), r(key), l(v)])
 }
 
-pub fn gen_request(rng: &mut Rng, max_ops: usize, long_texts: bool, cap: usize) -> Sx {
-    let cfg = GenCfg { max_ops, removals: 2, invalid: 30, values: false };
+pub fn gen_request(rng: &mut Rng, max_ops: usize, long_texts: bool, cap: usize, flags: i64) -> Sx {
+    // with an index switched off the store cannot find what a removal has to take along
+    // (C01/C02 are stated for the default configuration): those histories only add
+    let removals = flags == 0;
+    let cfg = GenCfg { max_ops, removals: if removals { 2 } else { 0 }, invalid: 30, values: false };
     let mut store = new_store();
     let mut shadow = Shadow::default();
     let mut ops: Vec<Sx> = Vec::new();
@@ -680,10 +701,21 @@ pub fn gen_request(rng: &mut Rng, max_ops: usize, long_texts: bool, cap: usize) 
             datas.push(vdata(KDEL, delims[rng.below(delims.len())]));
             op = l(vec![a(3), op.nth(1).clone(), op.nth(2).clone(), l(datas)]);
         }
+        if op.nth(0).int() == 3 && rng.chance(1, 6) {
+            // data of the user's own under a key that happens to be called like one of the validation
+            // vocabulary, in a set that is not the validation set: no business of text validation
+            let mut datas = op.nth(3).list().to_vec();
+            let key = [KCHK, KTXT, KDEL][rng.below(3)];
+            let val = ["zz", "|", "", "da39a3ee5e6b4b0d3255bfef95601890afd80709"][rng.below(4)];
+            let mut v = vec![a(4)];
+            v.extend(val.chars().map(|c| a(c as u32 as i64)));
+            datas.push(l(vec![r(rng.below(3) as i64), a(-1), r(key), l(v)]));
+            op = l(vec![a(3), op.nth(1).clone(), op.nth(2).clone(), l(datas)]);
+        }
         let before = store.annotations_len();
         let st = apply(&mut store, &op);
         ops.push(op.clone());
-        if op.nth(0).int() == 3 && st == 1 && store.annotations_len() == before + 1 && rng.chance(1, 8) {
+        if removals && op.nth(0).int() == 3 && st == 1 && store.annotations_len() == before + 1 && rng.chance(1, 8) {
             // the same annotation once more, carrying validation information of its own (right or wrong)
             let h = AnnotationHandle::new(before);
             let info = guard(|| {
@@ -720,12 +752,20 @@ pub fn gen_request(rng: &mut Rng, max_ops: usize, long_texts: bool, cap: usize) 
             break;
         }
     }
-    l(vec![l(ops), a(rng.below(4) as i64), l(vec![a(-1), a(cap as i64)])])
+    l(vec![l(ops), a(rng.below(4) as i64), l(vec![a(-1), a(cap as i64)]), a(flags)])
 }
 
 /// what a case exercised: read from the request, the model input and the implementation's answers
 fn coverage(out: &mut Out, req: &Sx, input: &Sx, obs: &[Sx]) {
     out.count(&format!("mode_{}", req.nth(1).int()));
+    if req.nth(3).int() != 0 {
+        out.count("index_switched_off");
+        for b in 0..6 {
+            if req.nth(3).int() & (1 << b) != 0 {
+                out.count(&format!("index_switch_{}_off", b));
+            }
+        }
+    }
     for e in input.nth(3).list() {
         out.count(match (e.nth(0).int(), e.nth(3).int()) {
             (0, _) => "edit_same_length",
@@ -756,6 +796,9 @@ fn coverage(out: &mut Out, req: &Sx, input: &Sx, obs: &[Sx]) {
                     _ => out.count("target_without_text"),
                 }
                 for d in op.nth(3).list() {
+                    if !(d.nth(0).nth(1).int() == VSET_TOK && d.nth(0).nth(0).int() == 0) && [KCHK, KTXT, KDEL].contains(&d.nth(2).nth(1).int()) && d.nth(2).nth(0).int() == 0 {
+                        out.count("namesake_key_in_another_set");
+                    }
                     if d.nth(0).nth(1).int() == VSET_TOK && d.nth(0).nth(0).int() == 0 {
                         out.count(match d.nth(2).nth(1).int() {
                             KDEL => "own_delimiter",
@@ -845,6 +888,7 @@ fn small_scope(out: &mut Out, ctx: &Ctx, thorough: bool) {
     let delims: [Option<&str>; 2] = [None, Some("|")];
     let step = if thorough { 1 } else { 2 };
     let mut k = 0usize;
+    let mut cnt = 0usize;
     for tx in texts.iter() {
         for (i, t1) in pool.iter().enumerate() {
             for (j, t2) in pool.iter().enumerate() {
@@ -854,16 +898,27 @@ fn small_scope(out: &mut Out, ctx: &Ctx, thorough: bool) {
                 }
                 for mode in 0..4 {
                     let d = delims[(i + j + mode) % 2];
-                    let data = match d {
-                        Some(x) => l(vec![vdata(KDEL, x)]),
-                        None => l(vec![]),
+                    let mut data = match d {
+                        Some(x) => vec![vdata(KDEL, x)],
+                        None => vec![],
                     };
+                    // the user's own "text" / "checksum" / "delimiter" in the set s1
+                    match (i * 7 + j * 3 + mode) % 6 {
+                        0 => data.push(l(vec![r(1), a(-1), r(KTXT), l(vec![a(4), a(122), a(122)])])),
+                        1 => data.push(l(vec![r(1), a(-1), r(KCHK), l(vec![a(4), a(48), a(48)])])),
+                        2 => data.push(l(vec![r(1), a(-1), r(KDEL), l(vec![a(4), a(35)])])),
+                        _ => {}
+                    }
+                    let data = l(data);
+                    // every index switch off in turn, all off, all on
+                    cnt += 1;
+                    let flags = [0i64, 1, 2, 4, 8, 16, 32, 63, 0, 9][cnt % 10];
                     let ops = vec![
                         l(vec![a(0), a(0), a(3), a(tx[0]), a(tx[1]), a(tx[2])]),
                         l(vec![a(3), a(-1), t1.clone(), l(vec![])]),
                         l(vec![a(3), a(-1), t2.clone(), data]),
                     ];
-                    let req = l(vec![l(ops), a(mode as i64), l(vec![a(-1), a(9)])]);
+                    let req = l(vec![l(ops), a(mode as i64), l(vec![a(-1), a(9)]), a(flags)]);
                     let (input, o, nt) = ctx.exec(&req);
                     coverage(out, &req, &input, &o);
                     out.case(&input, &o, nt, &req);
@@ -880,7 +935,8 @@ pub fn generate(out: &mut Out, tier: &str, seed: u64) {
     small_scope(out, &ctx, thorough);
     let n = if thorough { 60000 } else { 800 };
     for i in 0..n {
-        let req = gen_request(&mut rng, if i % 5 == 0 { 24 } else { 10 }, i % 3 == 0, if thorough { 12 } else { 9 });
+        let flags = if i % 4 == 3 { [1i64, 2, 4, 8, 16, 32, 63, 9][rng.below(8)] } else { 0 };
+        let req = gen_request(&mut rng, if i % 5 == 0 { 24 } else { 10 }, i % 3 == 0, if thorough { 12 } else { 9 }, flags);
         let (input, o, nt) = ctx.exec(&req);
         coverage(out, &req, &input, &o);
         out.case(&input, &o, nt, &req);
@@ -888,5 +944,5 @@ pub fn generate(out: &mut Out, tier: &str, seed: u64) {
     let _ = std::fs::remove_dir_all(&ctx.dir);
 }
 
-pub const RULE: &str = "seeded random histories (C01 generator plus annotations over text: single, Multi/Composite/Directional with mixed begin- and end-aligned cursors, annotation-relative) over resources with arbitrary texts of 1-4 byte characters, delimiters of their own, hand-carried validation data, protect_text in the middle of histories; then protect_text in one of the four modes, verdict of every annotation and the counters, every annotation and dataset record with its reverse lookups, JSON and CBOR round trip, and every single edit (substitution, insertion, deletion at every position up to a cap) of every resource text loaded through the store's own JSON. One evaluation = one compared observation.";
+pub const RULE: &str = "seeded random histories (C01 generator plus annotations over text: single, Multi/Composite/Directional with mixed begin- and end-aligned cursors, annotation-relative) over resources with arbitrary texts of 1-4 byte characters, delimiters of their own, hand-carried validation data, the user's own data under keys named text / checksum / delimiter in other sets, protect_text in the middle of histories; one case in four (and 7 in 10 of the small scope) under a configuration with reverse indices switched off (each of the six switches, all, text + annotation index; histories without removals; records with reverse lookups not compared there); then protect_text in one of the four modes, verdict of every annotation and the counters, every annotation and dataset record with its reverse lookups, JSON and CBOR round trip, and every single edit (substitution, insertion, deletion at every position up to a cap) of every resource text loaded through the store's own JSON. One evaluation = one compared observation.";
 pub const EXHAUSTIVE: bool = false;
